@@ -46,3 +46,22 @@ Open Scope R_scope.
 (* the spec sums on a two-point data set *)
 Example sums_ex : sumw [(1, 2); (3, 4)] = 4 /\ sumwx [(1, 2); (3, 4)] = 14 /\ mle_poisson [(1, 2); (3, 4)] = 14 / 4.
 Proof. unfold mle_poisson, sumw, sumwx; simpl. repeat split; lra. Qed.
+
+(* round 3: vector normal model in Q (no exp needed without log-weights), products, negative binomial *)
+From ADV Require Import C16.ModelVec.
+Example vn_est_clamped_ex :
+  vn_est NumQ (fun q => q) 2 2%Q [[2; 1]; [-2; -1]]%Q None = ([0; 0], [[4; 2]; [2; 2]])%Q.
+Proof. vm_compute. reflexivity. Qed.
+Example vn_est_dim1_ex : vn_est NumQ (fun q => q) 1 0%Q [[1]; [3]]%Q None = ([2], [[1]])%Q.
+Proof. vm_compute. reflexivity. Qed.
+Example cf_negbin_ex : cf_negbin NumQ 2%Q [(1, 3); (1, 1)]%Q = Some (1 # 2)%Q.
+Proof. vm_compute. reflexivity. Qed.
+Example scalar_id_ex :
+  scalar_id_est [(fun (c : list nat) (_ : unit) => Some (length c)); (fun c _ => Some (fold_left Nat.add c 0%nat))]
+                [[1; 2]; [3; 4]; [5; 6]]%nat tt = Some [3; 12]%nat.
+Proof. vm_compute. reflexivity. Qed.
+Example scalar_id_error_ex :
+  scalar_id_est [(fun (c : list nat) (_ : unit) => Some 0%nat); (fun c _ => None)] [[1; 2]]%nat tt = None.
+Proof. vm_compute. reflexivity. Qed.
+Example scalar_iid_ex : scalar_iid_est (fun (c : list nat) (_ : unit) => Some (length c)) [[1; 2]; [3]; [4; 5; 6]]%nat tt = Some 6%nat.
+Proof. vm_compute. reflexivity. Qed.
